@@ -150,7 +150,10 @@ def run(sc, tier, seed):
     V.build_harness("c16")
     # design level: splice/print/parse/clone over all condition trees, schedules over all phases, DBRPs
     cfg = "BatchSchedule_quick.cfg" if tier == "quick" else "BatchSchedule_thorough.cfg"
-    R.add_model(V.model_check(sc, "BatchSchedule", "BatchScheduleMC.tla", cfg, timeout=1500))
+    R.add_model(V.model_check(sc, "BatchSchedule", "BatchScheduleMC.tla", cfg, workers=8, timeout=1500))
+    if tier == "thorough":
+        # query part alone, one more nesting level (all 2776 shapes of depth <= 3 over one predicate name)
+        R.add_model(V.model_check(sc, "BatchSchedule", "BatchScheduleMC.tla", "BatchSchedule_thorough_d3.cfg", workers=4, timeout=900))
     neg = {}
     for ncfg, inv in NEG:
         res = V.model_check(sc, "BatchSchedule", "BatchScheduleMC.tla", ncfg, workers=4, timeout=600, expect_violation=[inv])
